@@ -242,6 +242,25 @@ func signature(p gopacket.Packet) string {
 	return sb.String()
 }
 
+// prepare does what a program does before it can verify TCP/UDP/ICMPv6
+// checksums of a decoded packet (examples/reassemblydump): it tells every
+// layer that needs a pseudo-header which network layer encloses it. This is
+// the caller's one write to the packet, done before the packet is shared.
+func prepare(p gopacket.Packet) {
+	var cur gopacket.NetworkLayer
+	for _, l := range p.Layers() {
+		if nl, ok := l.(gopacket.NetworkLayer); ok {
+			cur = nl
+			continue
+		}
+		if st, ok := l.(interface {
+			SetNetworkLayerForChecksum(gopacket.NetworkLayer) error
+		}); ok && cur != nil {
+			st.SetNetworkLayerForChecksum(cur)
+		}
+	}
+}
+
 // readAll exercises the read-only accessors of a shared eager packet.
 func readAll(p gopacket.Packet, which int) string {
 	var sb strings.Builder
@@ -317,12 +336,16 @@ func simC02(c *sim.Ctx) {
 		pristine[i] = append([]byte(nil), b...)
 	}
 	// reference signatures, taken in a quiet state
-	ref := make([][4]string, len(inputs))
+	ref := make([][8]string, len(inputs))
 	for i := range inputs {
-		for k := 0; k < 4; k++ {
+		for k := 0; k < 8; k++ {
 			// from a separate copy of the same bytes: what lies behind len() of
 			// the caller's slice must not matter
-			ref[i][k] = signature(gopacket.NewPacket(pristine[i], layers.LayerTypeEthernet, opts(k)))
+			p := gopacket.NewPacket(pristine[i], layers.LayerTypeEthernet, opts(k%4))
+			if k >= 4 {
+				prepare(p) // checksums of TCP/UDP/ICMPv6 are then really verified
+			}
+			ref[i][k] = signature(p)
 		}
 	}
 	s := coop.New(c)
@@ -337,9 +360,9 @@ func simC02(c *sim.Ctx) {
 		for k := 3 + c.Draw(8); k > 0; k-- {
 			switch c.Weighted(4, 2, 5) {
 			case 0:
-				plans[w] = append(plans[w], op{0, c.Draw(len(inputs)), c.Draw(4)})
+				plans[w] = append(plans[w], op{0, c.Draw(len(inputs)), c.Draw(8)})
 			case 1:
-				plans[w] = append(plans[w], op{1, c.Draw(len(inputs)), c.Draw(len(slots))})
+				plans[w] = append(plans[w], op{1, c.Draw(len(inputs)), c.Draw(len(slots)) + 100*c.Draw(2)})
 			case 2:
 				plans[w] = append(plans[w], op{2, c.Draw(len(slots)), c.Draw(5)})
 			}
@@ -360,21 +383,41 @@ func simC02(c *sim.Ctx) {
 				w.Yield(100)
 				switch o.kind {
 				case 0: // decode and compare with the quiet-state reference
-					p := gopacket.NewPacket(inputs[o.a], layers.LayerTypeEthernet, opts(o.b))
+					p := gopacket.NewPacket(inputs[o.a], layers.LayerTypeEthernet, opts(o.b%4))
+					if o.b >= 4 {
+						prepare(p)
+					}
 					w.Rec("decode", int64(o.a), int64(o.b), 0, "", nil)
 					if got := signature(p); got != ref[o.a][o.b] {
 						fail("deterministic", "decode-differs", "NewPacket", "input %d options %d decoded differently after other packets had been decoded / while other goroutines decode:\n got %q\nwant %q", o.a, o.b, got, ref[o.a][o.b])
 					}
 				case 1: // decode eagerly and publish for concurrent readers
 					// each slot has one publisher (a second one would race on the slot itself)
+					prep := o.b >= 100
+					o.b %= 100
 					if o.b%nw != wi || slots[o.b].p.Load() != nil {
 						continue
 					}
 					p := gopacket.NewPacket(inputs[o.a], layers.LayerTypeEthernet, gopacket.Default)
+					if prep {
+						// the publisher's own preparation, finished before the hand-over
+						prepare(p)
+					}
 					sh := slots[o.b]
 					sh.in = o.a
+					// The expected answers come from a twin decoded from the same bytes
+					// (half of the time), so that the packet handed over is untouched:
+					// anything an accessor computes on first use and keeps in the packet
+					// then happens among the concurrent readers, not here.
+					twin := p
+					if o.a%2 == 0 {
+						twin = gopacket.NewPacket(inputs[o.a], layers.LayerTypeEthernet, gopacket.Default)
+						if prep {
+							prepare(twin)
+						}
+					}
 					for k := 0; k < 5; k++ {
-						sh.want[k] = readAll(p, k)
+						sh.want[k] = readAll(twin, k)
 					}
 					w.Rec("publish", int64(o.a), int64(o.b), 0, "", nil)
 					sh.p.Store(&p)
